@@ -431,12 +431,94 @@ def run(ctx, scripts=None):
     elif rc != 0 or sym_summary is None:
         ctx.violation("symcache-crash", {"kind": "crash", "rc": rc, "stderr": err.decode(errors="replace")[-2000:], "stdout": out[-1000:]},
                       what="symbol cache scenario crashed (rc=%s)" % rc)
+    # ------------------------------------------------------------------ struct layout scenario (direct + model)
+    lay_summary = None
+    nsets, maxperm, nmodel = (2500, 200, 40) if quick else (30000, 400, 200)
+    if broken:
+        nsets *= 3
+    rc, out, err = run_cmd([hx, "layout", str(ctx.rng.fork("layout").next() % (1 << 62)), str(nsets), str(maxperm), str(nmodel)], timeout=3000, env=ENV)
+    out = out.decode(errors="replace")
+    lsets, lfails, cur = [], [], None
+    for l in out.splitlines():
+        t = l.split(" ")
+        if t[0] == "lset":
+            cur = {"keys": [], "ref": None}
+            lsets.append(cur)
+        elif t[0] == "lkey" and cur is not None:
+            cur["keys"].append(parse_term(t[1:])[0])
+        elif t[0] == "lref" and cur is not None:
+            cur["ref"] = " ".join(t[1:])
+        elif t[0] == "lfail":
+            lfails.append({"via": " ".join(t[2:]), "keys": [], "order": None})
+        elif t[0] == "lfkey" and lfails:
+            lfails[-1]["keys"].append(parse_term(t[1:])[0])
+        elif t[0] == "lforder" and lfails:
+            lfails[-1]["order"] = [int(x) for x in t[1:]]
+        elif l.startswith("summary layout"):
+            cut = t.index("sizes") if "sizes" in t else len(t)
+            lay_summary = dict(zip(t[2:cut:2], t[3:cut:2]))
+            lay_summary["set_sizes"] = " ".join(t[cut + 1:])
+    laylaws = [l for l in out.splitlines() if l.startswith("law ")]
+
+    def term_src(x):
+        k = x[0]
+        if k == "n":
+            return "(nb 0x%X 0x%X)" % (x[1] >> 32, x[1] & 0xFFFFFFFF)
+        if k == "s":
+            return pg.jstr(x[1])
+        if k == "k":
+            return "(keyword %s)" % pg.jstr(x[1])
+        if k == "y":
+            return "(symbol %s)" % pg.jstr(x[1])
+        return "nil"
+    if lfails:
+        f = lfails[0]
+        n = len(f["keys"])
+        o1, o2 = list(range(n)), f["order"]
+        srcs = ["(struct %s)" % " ".join("%s %d" % (term_src(f["keys"][i]), i + 1) for i in o) for o in (o1, o2)]
+        ms = mini_script([], srcs)
+        r2 = run_pool(hx, ms, None, timeout=120)
+        confirmed = bool(r2.capi) and len(r2.capi) == 2 and r2.capi[0][1] != "="
+        direct.append("layout-order")
+        ctx.violation("layout:order-dependent", {"kind": "layout-order", "via": f["via"], "keys": [describe(k) for k in f["keys"]], "order_a": o1, "order_b": o2,
+                                                 "script": ms, "confirmed_by_pool_run": confirmed, "laws": laylaws[:5], "failing_sets": lay_summary and lay_summary.get("failing_sets")},
+                      what="struct layout depends on insertion order (via %s): (= %s %s) is false / slot arrays differ" % (f["via"], srcs[0][:150], srcs[1][:150]))
+    elif laylaws:
+        direct.append("layout")
+        ctx.violation("law:" + laylaws[0].split(" ")[1], {"kind": "layout", "laws": laylaws[:10]}, what="struct layout scenario: " + laylaws[0])
+    elif rc != 0 or lay_summary is None:
+        ctx.violation("layout-crash", {"kind": "crash", "rc": rc, "stderr": err.decode(errors="replace")[-2000:], "stdout": out[-600:]},
+                      what="struct layout scenario crashed (rc=%s)" % rc)
+    # the same key sets through the model: structOf in several insertion orders must reproduce the implementation's slot array
+    lay_model = 0
+    if exe and lsets:
+        rngl = ctx.rng.fork("layout-model")
+        cases = []
+        for ls in lsets:
+            n = len(ls["keys"])
+            kv = [(ls["keys"][i], ("n", pystruct.unpack("<Q", pystruct.pack("<d", float(i + 1)))[0])) for i in range(n)]
+            orders = [list(range(n)), list(range(n))[::-1]]
+            for _ in range(6 if quick else 12):
+                o = list(range(n))
+                rngl.shuffle(o)
+                orders.append(o)
+            for o in orders:
+                cases.append((ls["ref"], o, "structof %d %d %s nil" % (n, n, " ".join(show_term(kv[i][0]) + " " + show_term(kv[i][1]) for i in o))))
+        mo = ctx.model([c[2] for c in cases], exe=exe)
+        lay_model = len(cases)
+        ldiffs = [{"op": "struct layout (layout scenario)", "order": c[1], "insertion": c[2][:500], "impl": c[0][:500], "model": o[:500]} for c, o in zip(cases, mo) if c[0] != o]
+        tot["model_lines"] += len(cases)
+        tot["model_diffs"] += len(ldiffs)
+        if ldiffs or len(mo) != len(cases):
+            diffs_all += ldiffs[:3]
+            broken.append("correspondence model/impl on struct layout scenario: %d differing slot arrays, first %r" % (len(ldiffs), ldiffs[:1]))
+            ctx.broken.append(broken[-1])
     # ------------------------------------------------------------------ verdict for broken obligations
     if broken and not direct and ctx.nviol == 0:
         ctx.violation("broken:" + broken[0][:80], {"kind": "broken-obligation", "broken": broken, "first_diffs": diffs_all[:5]}, found=False,
                       what="no longer shown to hold: " + "; ".join(broken)[:700])
     cov = {
-        "evaluations": tot["pairs"] + tot["triples"] + tot["vmcalls"] + tot["model_lines"],
+        "evaluations": tot["pairs"] + tot["triples"] + tot["vmcalls"] + tot["model_lines"] + int((lay_summary or {}).get("builds", 0)),
         "distinct_nontrivial": tot["classes"],
         "rule": "pool values = every recipe of every content (atoms: literal / constructor / parse / unmarshal / nb-bits; tuples and structs: see recipe histogram); "
                 "non-trivial = distinct content class (python canonical form of the serialised value); laws checked on ALL ordered pairs and ALL ordered triples of each pool; "
@@ -446,11 +528,13 @@ def run(ctx, scripts=None):
         "content_classes": tot["classes"], "content_classes_with_several_constructions": tot["multi_classes"],
         "model_lines": tot["model_lines"], "model_diffs": tot["model_diffs"], "struct_layout_rebuilds": tot["layouts"],
         "symbols_checked_for_identity": tot["symbols"], "symcache": sym_summary,
+        "struct_layout_scenario": lay_summary, "struct_layout_scenario_model_rebuilds": lay_model,
         "recipe_histogram": dict(sorted(recipe_hist.items())), "type_histogram": type_hist, "struct_capacity_histogram": {str(k): v for k, v in sorted(cap_hist.items())},
         "broken": broken,
     }
     ctx.say("values %d pairs %d triples %d vmcalls %d classes %d (multi %d) model lines %d diffs %d layouts %d symcache %s" % (
         tot["values"], tot["pairs"], tot["triples"], tot["vmcalls"], tot["classes"], tot["multi_classes"], tot["model_lines"], tot["model_diffs"], tot["layouts"], sym_summary))
+    ctx.say("layout scenario %s model rebuilds %d" % (lay_summary, lay_model))
     return ctx.finish("proof", cov, assumptions=[
         "NaN excluded (property text); abstract types (int/s64, int/u64, ...) are outside the model and outside the property's list",
         "numbers: model is parametric in an abstract lawful order (LawfulNum); executable instance = sign-magnitude reading of the 64-bit pattern, tied to the C's double == and < by correspondence",
